@@ -110,6 +110,11 @@ def ref_ids(spec, feats):
     return out
 
 
+# ID values with an SQL wildcard, a quote, a per-cent sign (written %25 in the file) and a plain one
+IDV = ["i_0", "i'1", "i%2", "i3"]
+_ENC = lambda v: v.replace("%", "%25")
+
+
 def body_gff3(ch, ctx):
     _, si, pi = ctx.shard
     sname, spec = SPECS[si]
@@ -122,9 +127,9 @@ def body_gff3(ch, ctx):
         kinds.append(kind)
         attrs = {}
         if kind in ("id", "both"):
-            attrs["ID"] = ["i%d" % i]
+            attrs["ID"] = [IDV[i]]
         if kind == "two_ids":
-            attrs["ID"] = ["i%d" % i, "j%d" % i]
+            attrs["ID"] = [IDV[i], "j%d" % i]
         if kind == "empty_id":
             attrs["ID"] = []            # "ID=" : the attribute is written but carries no value
             attrs["Name"] = ["n%d" % i]
@@ -137,7 +142,7 @@ def body_gff3(ch, ctx):
         order = [k for k in ("Name", "ID", "tag") if k in attrs] if (sname == "list_rev" or kind == "empty_id") else \
                 [k for k in ("ID", "Name", "tag") if k in attrs]
         texts.append("\t".join([cols["seqid"], cols["source"], ft, str(cols["start"]), str(cols["end"]), ".", cols["strand"], ".",
-                                ";".join("%s=%s" % (k, ",".join(attrs[k])) for k in order)]))
+                                ";".join("%s=%s" % (k, ",".join(_ENC(v) for v in attrs[k])) for k in order)]))
         feats[-1] = (ft, cols, {k: v for k, v in attrs.items()})
     try:
         exp = ref_ids("ID" if spec is None else spec, feats)
@@ -190,7 +195,7 @@ def body_gff3(ch, ctx):
                 ctx.check(g.id == f.id, "lookup-by-foreign-feature-returns-other-key", sig, wanted=f.id, got=g.id)
     idset = set(exp)
     for key in exp:
-        for miss in (key + "_1", key.swapcase(), key[:-1], key + " ", "nope"):
+        for miss in (key + "_1", key.swapcase(), key[:-1], key + " ", "nope", key.replace("_", "x"), key.replace("%", "ab"), "%", "_" * len(key)):
             if miss in idset or not miss:
                 continue
             try:
